@@ -37,7 +37,13 @@ def rule_store(ctx):
     m = prog.mod("variables")
     cls = prog.cls("variables", "Variables")
     ctx.analysed("variables.Variables.__init__", "conn.FakeSnowflakeConnection.__init__")
-    bad = [s for s in cls.body if isinstance(s, (ast.Assign, ast.AnnAssign)) and isinstance(getattr(s, "value", None), (ast.Dict, ast.List, ast.Set, ast.Call))]
+    def per_instance(st_):  # a dataclass field with a default factory is created per object, not once per class
+        v = getattr(st_, "value", None)
+        return isinstance(st_, ast.AnnAssign) and isinstance(v, ast.Call) and ast.unparse(v.func).split(".")[-1] == "field" \
+            and any(k.arg == "default_factory" for k in v.keywords)
+
+    bad = [s for s in cls.body if isinstance(s, (ast.Assign, ast.AnnAssign)) and isinstance(getattr(s, "value", None), (ast.Dict, ast.List, ast.Set, ast.Call))
+           and not per_instance(s)]
     ctx.ob("C15.a", "Variables has no class-level mutable container", not bad, m.loc(cls))
     for s in bad:
         ctx.violation("C15.a", "variables", "Variables", s, m.loc(s),
@@ -340,7 +346,26 @@ def rule_set_unset(ctx):
                               f"{kind} does not update the issuing connection's variable mapping exactly once and turn into the success no-op")
 
 
+def rule_script_not_presubstituted(ctx):
+    """C15.j: in a script run by execute_string every statement sees the variables as they are when *it* runs: the script
+    text reaches the statement splitter as given (C16.a's obligation) — substituting the whole script up front would give a
+    later statement the value from before an earlier SET / UNSET of the same script."""
+    from .c16 import rule_execute_string
+
+    before = len(ctx.findings)
+    ob0 = len(ctx.obligations)
+    rule_execute_string(ctx)
+    ctx.obligations[ob0:] = [dict(o, rule="C15.j") for o in ctx.obligations[ob0:] if "reaches the Snowflake parser unmodified" in o["what"]]
+    keep = []
+    for f in ctx.findings[before:]:
+        if "script pre-processed" in f.construct:
+            f.rule = "C15.j"
+            keep.append(f)
+    ctx.findings[before:] = keep
+
+
 RULES = [
+    ("C15.j", rule_script_not_presubstituted, ("quick", "thorough")),
     ("C15.a", rule_store, ("quick", "thorough")),
     ("C15.b", rule_pattern, ("quick", "thorough")),
     ("C15.d", rule_undefined_variable, ("quick", "thorough")),
